@@ -21,6 +21,9 @@ META = {
 }
 
 
+OTHER_PROPERTIES = False      # live_findings(): also judge the live-mode clauses of C03 and C10 on the same histories
+
+
 def canon(o):
     return ":".join([str(o._mid), o.status.name if o.status else "-", "T" if o.complete else "F", str(o.bet_id) if o.bet_id else "-",
                      "+".join(x.name for x in o.status_log) or ".", str(len(o.responses.cancel_responses)), str(len(o.responses.update_responses)),
@@ -58,6 +61,23 @@ def check_blotter(w, res, payload, where):
     for o in live:
         if o.id not in b:
             res.violate("live-list-holds-unknown-order", "%s: the live list holds an order the blotter does not know" % where, payload)
+    # C03 in live mode: at most one operation per order is outstanding (synchronous placement: nothing but the place response
+    # acknowledges the bet, so no request can be accepted before it)
+    import collections
+    cnt = collections.Counter(id(o) for p in w.pending + ([w.executing] if w.executing is not None else []) for o in p._orders)
+    for o in b:
+        if OTHER_PROPERTIES and cnt[id(o)] > 1 and not o.async_:
+            res.violate("two-operations-in-flight", "%s: order %s has %d requests outstanding at once (%s)" % (
+                where, getattr(o, "_mid", "?"), cnt[id(o)], [x.name for x in o.status_log]), payload)
+    # C10 in live mode: the runner is charged with exactly the placed trades that still have an order that is not complete
+    for st in w.strategies:
+        for sel in (1, 2, 3):
+            ctx = st.get_runner_context(w.market_id, sel, 0)
+            expect = {o.trade.id for o in w.orders if o.trade.strategy is st and o.selection_id == sel and o.id in b
+                      and any(not x.complete for x in o.trade.orders)}
+            if OTHER_PROPERTIES and (set(ctx.live_trades) != expect or len(ctx.live_trades) != len(set(ctx.live_trades))):
+                res.violate("live-trade-accounting", "%s: strategy %s selection %d is charged with %d live trades, %d of its placed trades have an order "
+                            "that is not complete" % (where, st.name, sel, len(ctx.live_trades), len(expect)), payload)
     # C03 finality in live mode: an order reported complete (with a bet id) never becomes live again (its sizes may still
     # catch up with, or be overwritten by a stale view of, the exchange: that is C11's convergence, not a revival)
     done = w.__dict__.setdefault("_done", set())
@@ -86,6 +106,15 @@ def one_case(res, rng, case, seed):
                 bets_now = [dict(b) for b in w.ex.bets.values()]
                 w.ops.extend(snapshot_ops(w, bets_now, ld))
                 w.send_snapshot(bets_now)
+                if rng.random() < 0.5:
+                    # the strategy reacts to the stream update while the response is still on its way
+                    # (not on an asynchronously placed order whose own place response is the one on its way: that response
+                    #  calls executable() and clears the request's update_data - flumine leaves that window to the caller)
+                    busy = w.executing._orders if w.executing is not None else []
+                    cands = [o for o in w.orders if o.status == OrderStatus.EXECUTABLE and o.bet_id and not (o.async_ and o in busy)]
+                    if cands:
+                        w.request(rng.choice(["cancel", "update", "replace"]), rng.choice(cands))
+                check_blotter(w, res, payload, "between a stream update and the response it overtook")
 
         w.stream_first = stream_first
         for _ in range(steps):
@@ -201,7 +230,14 @@ def one_case(res, rng, case, seed):
         for b in bets:
             o = w.local_for(b)
             if o is None:
-                # a bet the framework does not know by id: a placement that timed out (or failed locally) and was never acknowledged
+                # a bet the framework does not know by id: a placement that timed out (or failed locally) and was never
+                # acknowledged - unless it was placed asynchronously: then the order stream IS the acknowledgement, and the
+                # snapshot just processed carried the bet id
+                r = next((x for x in w.orders if x.customer_order_ref == b["ref"] and not getattr(x, "_replacement", False)), None)
+                if r is not None and r.async_ and r.bet_id is None and "replaces" not in b:
+                    res.violate("not-converged", "order %d (placed asynchronously) still has no bet id after the snapshot that reports its bet %s "
+                                "(local status %s, sizes %s/%s; exchange %s %s/%s)" % (r._mid, b["bet_id"], r.status.name, r.size_matched, r.size_remaining,
+                                                                                       b["status"], b["matched"], b["remaining"]), payload)
                 continue
             ex_complete = b["status"] == "EXECUTION_COMPLETE"
             problems = []
@@ -347,8 +383,13 @@ def run_histories(res, tier, seed, model_ok, search):
 
 def live_findings(tier, seed, search):
     """the oracle findings of the live histories, for the checks of other properties that have a live-mode clause"""
+    global OTHER_PROPERTIES
     sub = common.Result()
-    run_histories(sub, tier, seed, False, search)
+    OTHER_PROPERTIES = True
+    try:
+        run_histories(sub, tier, seed, False, search)
+    finally:
+        OTHER_PROPERTIES = False
     return sub
 
 
